@@ -274,14 +274,17 @@ def _copy_layer_to_x_sparse(
                 src_dataset = src_grp[el]
                 dtype = src_dataset.dtype
                 chunks = src_dataset.chunks
-                dst_grp.create_dataset(
-                    el,
-                    shape=src_dataset.shape,
-                    chunks=chunks,
-                    dtype=dtype)
                 if chunks is None:
-                    dst_grp[el] = src_dataset[()]
+                    dst_grp.create_dataset(
+                        el,
+                        data=src_dataset[()],
+                        dtype=dtype)
                 else:
+                    dst_grp.create_dataset(
+                        el,
+                        shape=src_dataset.shape,
+                        chunks=chunks,
+                        dtype=dtype)
                     for i0 in range(0, src_dataset.shape[0], chunks[0]):
                         i1 = min(src_dataset.shape[0], i0+chunks[0])
                         dst_grp[el][i0:i1] = src_dataset[i0:i1]
